@@ -310,6 +310,22 @@ fn threshold_case<T: Sc>(rng: &mut Rng, case: u64, out: &mut CaseOut) {
     if !run_one(next_up(e), vec![], false, "no epsilon call, singular value one ulp above machine epsilon", out) {
         return;
     }
+    // thresholds below machine epsilon are legal and must be used as given (|e|, also 0)
+    let small = crate::sc::rt::<T>(if T::IS_F64 { rng.logrange(1e-40, 1e-18) } else { rng.logrange(1e-30, 1e-9) });
+    for sign in [1.0, -1.0] {
+        if !run_one(small, vec![Op::E(sign * small)], true, "epsilon(±s) with s below machine epsilon", out) {
+            return;
+        }
+        if !run_one(next_up(small), vec![Op::E(sign * small)], false, "epsilon(±s) with s below machine epsilon, singular value one ulp above", out) {
+            return;
+        }
+    }
+    if !run_one(small, vec![Op::E(0.0)], false, "epsilon(0): only exactly zero singular values count as zero", out) {
+        return;
+    }
+    if !run_one(small, vec![Op::E(-0.0)], false, "epsilon(-0)", out) {
+        return;
+    }
     // repetition: the last call wins
     if !run_one(s, vec![Op::E(s * 100.0), Op::E(-s)], true, "epsilon(100s) then epsilon(-s)", out) {
         return;
@@ -324,6 +340,6 @@ pub fn run(ctx: &Ctx) {
     let orders = t.pick(3, 8);
     let grid = 13 * 13 * 5 * 4 * 4;
     ctx.run_cases("shapes-and-orders", grid, t.pick(60.0, 600.0), |r, c, o| if c % 2 == 0 { shapes_case::<f64>(r, c, o, orders) } else { shapes_case::<f32>(r, c, o, orders) });
-    ctx.run_cases("threshold", t.pick(500, 10000), t.pick(10.0, 60.0), |r, c, o| if c % 2 == 0 { threshold_case::<f64>(r, c, o) } else { threshold_case::<f32>(r, c, o) });
+    ctx.run_cases("threshold", t.pick(3000, 10000), t.pick(10.0, 60.0), |r, c, o| if c % 2 == 0 { threshold_case::<f64>(r, c, o) } else { threshold_case::<f32>(r, c, o) });
     ctx.extra("shape_grid", json!({"model_length": "0..12", "rows": "0..12", "cols": "0..4", "weights": 4, "constructors": 4, "combinations": grid}));
 }
